@@ -254,7 +254,7 @@ def px_txt(px):
 
 def to_pixels(cfg, px):
     tt, idx = px
-    coords = np.unravel_index(np.array(idx, dtype=np.int64), cfg["shape"])
+    coords = np.unravel_index(np.array(idx, dtype=np.int64), cfg.get("shape", [5, 5] if cfg["ndim"] == 3 else [3, 3, 3]))
     return (np.full(len(idx), tt, dtype=np.int64), *coords)
 
 
@@ -362,6 +362,13 @@ def gen_op(rng, t, cfg, ids_seen):
             else:
                 attrs["pos"] = [float(nid)] + [0.0] * (cfg["ndim"] - 2)
                 toks.append("1=t%d" % nid)
+        # malformed stream: pixels without an array (ValueError) / in a frame that does not exist
+        # (IndexError): must be refused before any sub-edit (F-11d)
+        r4 = rng.random()
+        if not cfg["seg"] and r4 < 0.12:
+            px = (tm, [0])
+        elif cfg["seg"] and px is not None and r4 < 0.06:
+            px = (T + rng.randrange(0, 2), px[1])
         # a caller-supplied lineage id is outside the documented domain of UserAddNode (it is
         # taken at face value); the generator never passes one - see DESIGN.md, domain limits
         pixels = None if px is None else to_pixels(cfg, px)
